@@ -231,7 +231,7 @@ func (w *world) finishParked(tid int) error {
 	select {
 	case jr := <-t.done:
 		w.finishJoin(tid, t, r, jr)
-	case <-time.After(3 * time.Second):
+	case <-time.After(10 * time.Second):
 		return errStuck
 	}
 	w.unpark(tid)
@@ -438,7 +438,7 @@ func (w *world) stepJoin(tid int, t *thread, r *Req) error {
 		case jr := <-t.done:
 			w.finishJoin(tid, t, r, jr)
 			w.took(tid)
-		case <-time.After(3 * time.Second):
+		case <-time.After(10 * time.Second):
 			return errStuck
 		}
 	case sLooked:
@@ -487,7 +487,7 @@ func (w *world) stepLeave(tid int, t *thread, r *Req) error {
 		}
 		select {
 		case <-done:
-		case <-time.After(3 * time.Second):
+		case <-time.After(10 * time.Second):
 			return errStuck
 		}
 	}
@@ -602,7 +602,7 @@ func (w *world) stepConn(tid int, t *thread, r *Req, o *Obs) error {
 		case h := <-ch:
 			t.held = h
 			t.st = sHeld
-		case <-time.After(200 * time.Millisecond):
+		case <-time.After(1200 * time.Millisecond):
 			unwait()
 			select {
 			case h := <-ch:
@@ -619,7 +619,7 @@ func (w *world) stepConn(tid int, t *thread, r *Req, o *Obs) error {
 		}
 	case sHeld:
 		close(t.held.release)
-		_ = t.cc.SetReadDeadline(time.Now().Add(400 * time.Millisecond))
+		_ = t.cc.SetReadDeadline(time.Now().Add(1500 * time.Millisecond))
 		b, err := t.rd.ReadByte()
 		if err != nil {
 			t.st = sCStranded
@@ -746,6 +746,10 @@ func runCase(c *Case, progress func(tid int)) (*Obs, error) {
 			continue
 		}
 		t, r := w.th[tid], &c.Reqs[tid]
+		if r.Op == "conn" && len(r.R) == 1 && r.R[0] == -1 {
+			// "the port the server chose for join thread 0"
+			r.R = []int{at(w.th[0].res, 0)}
+		}
 		var err error
 		switch r.Op {
 		case "join":
@@ -782,6 +786,18 @@ func runCase(c *Case, progress func(tid int)) (*Obs, error) {
 			o.Dead = append(o.Dead, i)
 		}
 		w.mu.Unlock()
+	}
+	// server-chosen ports are part of what is observed
+	for i, t := range w.th {
+		if c.Kind == 0 && c.Reqs[i].Op == "join" && c.Reqs[i].Port == 0 && t.st == sMember {
+			dup := false
+			for _, r := range c.Probe {
+				dup = dup || sameRes(r, []int{t.val})
+			}
+			if !dup {
+				c.Probe = append(c.Probe, []int{t.val})
+			}
+		}
 	}
 	tab := w.table()
 	names := make([]string, 0, len(tab))
